@@ -788,7 +788,7 @@ def main(argv=None):
     recs = run_pool(a.pid, cfgs, a.tier, seed, a.jobs, verbose=a.v)
     fidelity_compare(a.pid, recs)
     recs.sort(key=lambda r: cfg_key(r['cfg']))
-    return report(mod, a.pid, a.tier, seed, recs, time.time() - t0, verbose=a.v)
+    return report(mod, a.pid, a.tier, seed, recs, time.time() - t0, verbose=a.v, partial=bool(a.only))
 
 
 def fidelity_compare(pid, recs):
@@ -832,7 +832,7 @@ def fidelity_compare(pid, recs):
             pass
 
 
-def report(mod, pid, tier, seed, recs, wall, verbose=False):
+def report(mod, pid, tier, seed, recs, wall, verbose=False, partial=False):
     from . import loader
     known = load_known()
     counts = {'proved': 0, 'cex': 0, 'unknown': 0, 'searched': 0}
@@ -967,9 +967,11 @@ def report(mod, pid, tier, seed, recs, wall, verbose=False):
     if hasattr(mod, 'evidence_extra'):
         ev['coverage'].update(mod.evidence_extra(recs))
     os.makedirs(os.path.join(OUT, 'evidence'), exist_ok=True)
-    with open(os.path.join(OUT, 'evidence', pid + '.json'), 'w') as f:
+    # a filtered run (--only, a development aid) never overwrites the evidence of the registered commands
+    sfx = '.partial' if partial else ''
+    with open(os.path.join(OUT, 'evidence', pid + sfx + '.json'), 'w') as f:
         json.dump(ev, f, indent=1, sort_keys=True, default=str)
-    with open(os.path.join(OUT, 'evidence', pid + '.' + tier + '.detail.json'), 'w') as f:
+    with open(os.path.join(OUT, 'evidence', pid + sfx + '.' + tier + '.detail.json'), 'w') as f:
         json.dump(recs, f, indent=0, default=str)
     print('%s %s: %d configs, %d obligations: %d proved (%d by solver), %d inconclusive, %d cex (%d known), '
           '%d queries, solver %.1fs, wall %.1fs' % (pid, tier, len(recs), nob, counts.get('proved', 0), len(nontrivial),
